@@ -5,7 +5,7 @@ import gen_colors as gc
 import valenc
 import wcag_ref
 from common import proof_status, repo_import
-from opt_common import gen_pairs, pool
+from opt_common import gen_pairs, knife_edge_pairs, pool
 from proto import run_lines
 from spellings import OPAQUE_KINDS, TRANSLUCENT_KINDS, spell
 
@@ -56,8 +56,16 @@ def gen_list(rng):
             text, _ = spell(rng, t, rng.choice(OPAQUE_KINDS + TRANSLUCENT_KINDS))
             bg, _ = spell(rng, b, rng.choice(OPAQUE_KINDS))
         items.append((text, bg) if rng.random() < 0.5 else (text, bg, bool(rng.randrange(2))))
-    if items and rng.random() < 0.3:
-        items.append(items[rng.randrange(len(items))])      # duplicate
+    if items and rng.random() < 0.4:
+        it = items[rng.randrange(len(items))]
+        k = rng.random()
+        if k < 0.4:
+            items.append(it)                                  # exact duplicate
+        elif k < 0.7:
+            items.append((it[0], it[1], not (it[2] if len(it) == 3 else False)))   # same colours, other text size
+        else:
+            items.insert(0, (it[0], it[1], True))             # a large-text entry ahead of a 2-element one
+            items.append((it[0], it[1]))
     return items
 
 
@@ -91,6 +99,10 @@ def check(run):
             perm = items[:]
             run.rng.shuffle(perm)
             jobs.append((perm, mode, very))
+    # entries whose ratio sits within 0.004 of a threshold: the label must not move
+    for (t, b) in knife_edge_pairs(run.rng, 40 if q else 1200):
+        large = bool(run.rng.randrange(2))
+        jobs.append(([("#%02x%02x%02x" % t, "#%02x%02x%02x" % b, large), ("rgb(%d, %d, %d)" % t, tuple(b))], run.rng.choice([0, 1, 2]), bool(run.rng.randrange(2))))
     jobs = [j for j in jobs if all(valenc.encodable(x) for it in j[0] for x in it[:2])]
     with pool() as p:
         res = p.map(w_bulk, jobs, chunksize=2)
